@@ -2,6 +2,7 @@ package gen
 
 import (
 	"fmt"
+	"strings"
 
 	"pgregory.net/rapid"
 
@@ -30,6 +31,7 @@ type Opts struct {
 	QualHeavy    bool // C13: cast types, enums, oneofs, embedded, maps of messages
 	CustomFields bool // C17
 	NoCustom     bool
+	NoEmbedHeavy bool // never add the block of several embedded messages (embedHeavy)
 	NoTemporal   bool // no time/duration anywhere (for the C18 "missing time_type" probe base)
 	NoEmpty      bool
 
@@ -213,6 +215,9 @@ func File(t *rapid.T, o Opts) *ir.File {
 		m := g.message(name, i == nMsg-1)
 		f.Messages = append(f.Messages, m)
 	}
+	if o.AllowNullableEmbed && o.AllowNullableEmbedComplex && !o.NoEmbedHeavy && rapid.IntRange(0, 4).Draw(t, "embedheavy") == 0 {
+		g.embedHeavy(used)
+	}
 	// Declaration order in the file is independent of the reference order.
 	if rapid.Bool().Draw(t, "reverse") {
 		for i, j := 0, len(f.Messages)-1; i < j; i, j = i+1, j-1 {
@@ -220,6 +225,111 @@ func File(t *rapid.T, o Opts) *ir.File {
 		}
 	}
 	return f
+}
+
+// embedHeavy gives one or two messages of the file several embedded messages at once (two or three, most of them
+// nullable, each with scalar, list, map and message children under names no other field uses). The ordinary field loop
+// embeds often but seldom twice in one message, and code that handles "the" embedded parent of a message is only
+// exercised when there are two that differ in nil-ness. A host is never itself embedded somewhere (a nullable embedded
+// message that embeds is outside D).
+func (g *fileGen) embedHeavy(used map[string]bool) {
+	t, f := g.t, g.f
+	embeddedSomewhere := map[string]bool{}
+	for _, m := range f.Messages {
+		for _, fl := range m.Fields {
+			if fl.Embed {
+				embeddedSomewhere[fl.Type] = true
+			}
+		}
+	}
+	var hosts []*ir.Message
+	for _, m := range f.Messages {
+		if len(m.Fields) > 0 && len(m.Fields) < 12 && !embeddedSomewhere[m.Name] && g.flat[m.Name] != nil {
+			hosts = append(hosts, m)
+		}
+	}
+	if len(hosts) == 0 {
+		return
+	}
+	var leaves []string // messages without message-typed or custom fields: referencing them cannot close a cycle
+	for _, m := range f.Messages {
+		leaf := len(m.Fields) > 0 && !g.hasCustom[m.Name]
+		for _, fl := range m.Fields {
+			if fl.Kind == ir.KMessage {
+				leaf = false
+			}
+		}
+		if leaf {
+			leaves = append(leaves, m.Name)
+		}
+	}
+	nHosts := rapid.IntRange(1, 2).Draw(t, "eh_hosts")
+	done := map[string]bool{}
+	for hi := 0; hi < nHosts; hi++ {
+		host := rapid.SampledFrom(hosts).Draw(t, "eh_host")
+		if done[host.Name] {
+			continue
+		}
+		done[host.Name] = true
+		tag := fmt.Sprintf("Eh%c", 'P'+hi) // no digits: gogo capitalises a letter that follows a digit, the plugin does not
+		num := int32(0)
+		for _, fl := range host.Fields {
+			if fl.Number > num {
+				num = fl.Number
+			}
+		}
+		n := rapid.IntRange(2, 3).Draw(t, "eh_n")
+		for i := 0; i < n; i++ {
+			name := fmt.Sprintf("Emb%s%c", tag, 'A'+i)
+			if used[name] || host.Name == name {
+				continue
+			}
+			used[name] = true
+			px := fmt.Sprintf("%s%c", tag, 'a'+i) // EhPa...
+			lower := rapid.Bool().Draw(t, "eh_lower")
+			nm := func(base string) string {
+				if lower {
+					return strings.ToLower(px) + "_" + strings.ToLower(base)
+				}
+				return px + base
+			}
+			e := &ir.Message{Name: name}
+			add := func(fl *ir.Field) {
+				fl.Number = int32(len(e.Fields) + 1)
+				e.Fields = append(e.Fields, fl)
+			}
+			add(&ir.Field{Name: nm("Str"), Kind: "string"})
+			if rapid.Bool().Draw(t, "eh_int") {
+				add(&ir.Field{Name: nm("Num"), Kind: rapid.SampledFrom([]string{"int64", "uint32", "double", "bool"}).Draw(t, "eh_kind")})
+			}
+			if rapid.IntRange(0, 2).Draw(t, "eh_list") != 0 {
+				add(&ir.Field{Name: nm("List"), Kind: "string", Card: ir.Repeated})
+			}
+			if rapid.IntRange(0, 2).Draw(t, "eh_map") != 0 {
+				add(&ir.Field{Name: nm("Map"), Kind: rapid.SampledFrom([]string{"string", "int32", "bytes"}).Draw(t, "eh_mapkind"), Card: ir.Map})
+			}
+			if len(leaves) > 0 && rapid.Bool().Draw(t, "eh_msg") {
+				ref := rapid.SampledFrom(leaves).Draw(t, "eh_ref")
+				if ref != host.Name && ref != name {
+					fl := &ir.Field{Name: nm("Msg"), Kind: ir.KMessage, Type: ref}
+					if rapid.Bool().Draw(t, "eh_msgnull") {
+						fl.Nullable = boolp(false)
+					}
+					add(fl)
+				}
+			}
+			f.Messages = append(f.Messages, e)
+			num++
+			ef := &ir.Field{Name: name, Number: num, Kind: ir.KMessage, Type: name, Embed: true}
+			switch rapid.IntRange(0, 3).Draw(t, "eh_nullable") {
+			case 0:
+				ef.Nullable = boolp(false)
+			case 1:
+				ef.Nullable = boolp(true)
+			}
+			host.Fields = append(host.Fields, ef)
+		}
+	}
 }
 
 func upper(s string) string {
@@ -318,6 +428,41 @@ func (g *fileGen) message(name string, last bool) *ir.Message {
 		fl.Number = nextNum()
 		m.Fields = append(m.Fields, fl)
 		i++
+	}
+	// A map next to a sibling whose attribute is called "value" or "key" (the names the synthetic map entry gives its
+	// own fields) and has the type of the map's values: generated element code that looks an attribute up by the
+	// wrong one of the two names goes unnoticed unless such a sibling exists.
+	if rapid.Bool().Draw(t, "valuesibling") {
+		for idx, mf := range m.Fields {
+			if mf.Card != ir.Map || mf.Oneof != "" || mf.CustomType != "" {
+				continue
+			}
+			cand := rapid.SampledFrom([]string{"value", "Value", "value", "Value", "key", "Key"}).Draw(t, "siblingname")
+			if !names.okField(cand) {
+				continue
+			}
+			names.addField(cand)
+			sib := &ir.Field{Name: cand, Kind: mf.Kind, Type: mf.Type, Number: nextNum()}
+			if cand == "key" || cand == "Key" {
+				sib.Kind, sib.Type = "string", ""
+			}
+			if sib.Kind == ir.KMessage || sib.Kind == ir.KTimestamp || sib.Kind == ir.KDuration {
+				if rapid.Bool().Draw(t, "siblingnullable") {
+					sib.Nullable = boolp(false)
+				}
+				g.complex[name] = true
+			}
+			pos := idx // in front of the map, or behind it
+			if rapid.Bool().Draw(t, "siblingafter") {
+				pos = idx + 1
+			}
+			// never inside a oneof block
+			for pos < len(m.Fields) && pos > 0 && m.Fields[pos].Oneof != "" && m.Fields[pos-1].Oneof == m.Fields[pos].Oneof {
+				pos++
+			}
+			m.Fields = append(m.Fields[:pos], append([]*ir.Field{sib}, m.Fields[pos:]...)...)
+			break
+		}
 	}
 	return m
 }
